@@ -556,7 +556,9 @@ def judge_arr(case, host, j):
             j.eq('param %d (%s):nullable' % (idx, names[i]), '1' if plain else None, p.get('nullable'))
             j.eq('param %d (%s):destroy' % (idx, names[i]), ABSENT, de)
             j.eq('param %d (%s):scope' % (idx, names[i]), ABSENT, sc)
-            if case['host'] == 'func' or case['host'] == 'method':
+            if M.own_user_data_closure(case['host'], r, names[i], plain):
+                j.eq('param %d (%s):own closure' % (idx, names[i]), str(idx), cl)
+            else:
                 j.unspec += 1       # closure attribute on the user-data parameter itself: not fixed
         elif r == 'D':
             j.eq('param %d (%s):closure' % (idx, names[i]), ABSENT, cl)
@@ -680,7 +682,7 @@ def run(ctx):
         'long long, long double), transfer of returned records/objects/containers/enums/pointers to basic values/'
         'string arrays, closure detection for user-data names other than user_data and for non-adjacent or ambiguous '
         'candidates, scope of an async callback that also has a destroy notify, scope of GDestroyNotify parameters, '
-        'closure attribute on a callback typedef\'s own user_data, nullability of callbacks and GCancellable',
+        'closure attribute on a user-data parameter of a function/method or on one not named user_data, pointers to GStrv, nullability of callbacks and GCancellable',
         'out/inout defaults are reached through a bare direction annotation; the direction and caller-allocates flag '
         'are read from the output (they are property C01) and only the default ownership is judged',
     ]
